@@ -446,8 +446,36 @@ func (s *scen) emit() {
 	lastAssign, lastCommitted, lastFetchTopics := "-", "-", ""
 	pendAtt := map[string][2]string{}
 	genIDs := map[string]string{} // generation pointer id -> "<generation id>:<member id>"
+	// two commit loops can be active at once (a late-started loop of an ended generation, D8 shape): the first active
+	// one is the model's main component, a loop that begins meanwhile the second ("L!" prefix)
+	slot := map[string]string{} // generation pointer id -> "" | "L!"
+	active := map[string]string{}
+	tagOf := func(gen string) string { return slot[gen] }
+	tagOfIDs := func(ids string) string { // an OffsetCommit is attributed by the generation/member ids it carries
+		for g, t := range slot {
+			if _, on := active[g]; on && genIDs[g] == ids && t == "L!" {
+				return "L!"
+			}
+		}
+		return ""
+	}
 	for _, e := range evs {
 		a := e.Args
+		if e.Kind == "CL.Begin" {
+			t := ""
+			for _, u := range active {
+				if u == "" {
+					t = "L!"
+				}
+			}
+			slot[a[1]] = t
+			active[a[1]] = t
+		}
+		if strings.HasPrefix(e.Kind, "CL.") && len(a) > 1 {
+			pre := tagOf(a[1])
+			_ = pre
+		}
+		nBefore := len(toks)
 		switch e.Kind {
 		case "H.CommitCall":
 			add("call:" + a[0] + ":" + a[1])
@@ -470,7 +498,7 @@ func (s *scen) emit() {
 				if s.wire { // the library's own conclusion follows as M.Wire
 					pendAtt[a[0]] = [2]string{offs, ack + ":" + ids}
 				} else {
-					add("att:" + offs + ":" + ack + ":" + ack + ":" + ids)
+					add(tagOfIDs(ids) + "att:" + offs + ":" + ack + ":" + ack + ":" + ids)
 				}
 			case "syncGroup":
 				if a[2] == "-" {
@@ -487,7 +515,8 @@ func (s *scen) emit() {
 				if pa, ok := pendAtt[a[0]]; ok {
 					delete(pendAtt, a[0])
 					// att:<offsets>:<what the library concluded>:<what the coordinator decided>
-					add("att:" + pa[0] + ":" + b01(strconv.FormatBool(a[2] == "-")) + ":" + pa[1])
+					idp := strings.SplitN(pa[1], ":", 2)
+					add(tagOfIDs(idp[1]) + "att:" + pa[0] + ":" + b01(strconv.FormatBool(a[2] == "-")) + ":" + pa[1])
 				}
 			}
 		case "CL.RetryAbort":
@@ -511,6 +540,14 @@ func (s *scen) emit() {
 			fmt.Fprintf(out, "assign %d %s %s %s\t%s\n", s.r.Config().StartOffset, lastFetchTopics, assignToSubs(lastAssign), lastCommitted, assignmentsToRes(a[4], strings.Split(lastFetchTopics, ",")))
 		case "R.Subscribe":
 			add("sub:" + a[1])
+		}
+		if strings.HasPrefix(e.Kind, "CL.") && len(a) > 1 && tagOf(a[1]) != "" {
+			for i := nBefore; i < len(toks); i++ {
+				toks[i] = tagOf(a[1]) + toks[i]
+			}
+		}
+		if e.Kind == "CL.End" {
+			delete(active, a[1])
 		}
 	}
 	st := "ok"
@@ -589,6 +626,10 @@ func main() {
 	if gen.Thorough() {
 		nF, nT = 3000, 400
 	}
+	if len(os.Args) > 1 && os.Args[1] == "lateloop" {
+		scenarioLateLoop()
+		return
+	}
 	if len(os.Args) > 1 && os.Args[1] == "d30" {
 		scenarioD30()
 		return
@@ -606,6 +647,7 @@ func main() {
 	fCases(rng, nF)
 	scenarioD8Reader()
 	scenarioD30()
+	scenarioLateLoop()
 	for i := 0; i < nT; i++ {
 		topics := [][]string{{"t"}, {"t", "u"}, {"a", "b", "c"}}[rng.Intn(3)]
 		s := newScen(rng, topics, rng.Intn(2) == 0, []int{0, 10, 20}[rng.Intn(3)])
